@@ -6,7 +6,7 @@
 // output injected through the runner's own factory method). Observed: the order of TestOutput callbacks
 // (tests started/ended, group started/ended, test started/ended, body executed), the TestResult counters at the
 // end of every repetition, the printed summary, the linked list of tests after every reordering.
-// Reference: the selection rule of the property (std::string::find / ==), "exactly once", "counters sum to N",
+// Reference: the selection rule of the property (libc strstr / strcmp), "exactly once", "counters sum to N",
 // "permutation", "group start/end alternate and enclose tests of one group".
 //
 // Shuffle is made exhaustive: PlatformSpecificRand is a seam; the only influence of a seed is the sequence of
@@ -105,7 +105,7 @@ typedef std::vector<FSpec> FList;
 bool ref_accepts(const FList& l, const std::string& s) {
     if (l.empty()) return true;                                   // "when any are given"
     for (const FSpec& f : l) {
-        bool m = f.strict ? (s == f.text) : (s.find(f.text) != std::string::npos);
+        bool m = f.strict ? (strcmp(s.c_str(), f.text.c_str()) == 0) : (strstr(s.c_str(), f.text.c_str()) != nullptr);   // libc is the reference
         if (f.invert) m = !m;
         if (m) return true;                                       // "at least one"
     }
@@ -436,6 +436,7 @@ std::vector<FList> lists_upto2(const std::vector<FSpec>& a) {
     for (auto& x : a) for (auto& y : a) l.push_back(FList{x, y});
     return l;
 }
+const FList& none_list() { static const FList l; return l; }
 // registries: index -> sequence of kinds (length 0..maxn over k kinds), shortest first
 long registries_upto(int k, int maxn) { long t = 0, p = 1; for (int n = 0; n <= maxn; n++) { t += p; p *= k; } return t; }
 std::vector<int> registry_kinds(long idx, int k) {
@@ -470,7 +471,7 @@ int main(int argc, char** argv) {
     vf::info("rule", "registries of scripted tests (group, name, ignored) x filter lists (substring/strict, plain/inverted, several per side) x run-ignored x repetitions x reorderings "
                      "(reverse; shuffle with every vector of rand() answers) run through the real registry or the real command line runner; every repetition is compared with the "
                      "property: exactly-once, counters, selection rule, permutation, balanced group notifications. Non-trivial = filter sections: a filter is given and (single test) "
-                     "or some test is selected and some filtered out (several tests); order sections: the observed order differs from the registration order; config: some option call is made before the last addTest");
+                     "or some test is selected and some filtered out (several tests); order sections: the observed order differs from the registration order; config: some option call is made before the last addTest; selstr: a substring filter of length >= 2 shorter than the string is in the list");
 
     // ---------------------------------------------------------------- sel1: one test, full filter-list pairs
     {
@@ -494,6 +495,29 @@ int main(int argc, char** argv) {
             if (a || b) vf::count("nontrivial");
         });
         vf::require_outcomes("sel1", 3);
+    }
+
+    // ---------------------------------------------------------------- selstr: every short string against every short filter text
+    {
+        // all strings over {a,b}: self-overlapping filter texts and names in which the only occurrence starts inside a partial match are among them
+        auto all_ab = [](int maxlen) { std::vector<std::string> v = {""}; size_t from = 0; for (int l = 1; l <= maxlen; l++) { size_t to = v.size(); for (size_t i = from; i < to; i++) { v.push_back(v[i] + "a"); v.push_back(v[i] + "b"); } from = to; } return v; };
+        int nl = T ? 5 : 4, fl = T ? 4 : 3;
+        std::vector<std::string> names = all_ab(nl), texts = all_ab(fl);
+        for (const char* x : {"A", "AB", "B", "x", "xy", "y"}) { names.push_back(x); texts.push_back(x); }
+        std::vector<FList> lists = lists_upto2(atoms(texts));
+        long NM = (long)names.size(), LL = (long)lists.size();
+        vf::info("selstr.bound", vf::fmt("one test whose name (group fixed) or group (name fixed) is any of %ld strings: all strings over {a,b} of length 0..%d plus {A,AB,B,x,xy,y}; filter list on that side: every ordered list of 0..2 filters "
+                                         "over (all strings over {a,b} of length 0..%d plus those six) x {substring,strict} x {plain,inverted} = %ld lists; reference verdict from libc strstr/strcmp", NM, nl, fl, LL));
+        vf::section_index("selstr", NM * LL * 2, [&](long idx) {
+            vf::Radix r(idx); long side = r.take(2), n = r.take(NM), l = r.take(LL);
+            std::vector<TSpec> tests = {side ? TSpec{names[n], "t", false} : TSpec{"G", names[n], false}};
+            std::vector<Step> st = {Step::run()};
+            RunSummary s = run_registry(tests, side ? lists[l] : none_list(), side ? none_list() : lists[l], st);
+            vf::outcome(vf::fmt("run=%zu flt=%zu", s.last.run, s.last.filtered));
+            bool sub = false; for (auto& f : lists[l]) if (!f.strict && f.text.size() >= 2 && f.text.size() < names[n].size()) sub = true;
+            if (sub) vf::count("nontrivial");
+        });
+        vf::require_outcomes("selstr", 2);
     }
 
     // kinds of the multi-test sections
